@@ -1,5 +1,31 @@
 """Run one AST through the reference and through the real compiler+VM and compare."""
+import signal
+import threading
+
 from . import compare, ref as refmod, render
+
+TIME_LIMIT_S = 20          # per program: compile + run normally take about a millisecond
+
+
+class TooLong(BaseException):
+    pass
+
+
+def _alarm(signum, frame):
+    raise TooLong()
+
+
+def limited(fn, *a, **k):
+    """Run fn under the per-program time limit (main thread only); raises TooLong."""
+    if threading.current_thread() is not threading.main_thread():
+        return fn(*a, **k)
+    old = signal.signal(signal.SIGALRM, _alarm)
+    signal.setitimer(signal.ITIMER_REAL, TIME_LIMIT_S)
+    try:
+        return fn(*a, **k)
+    finally:
+        signal.setitimer(signal.ITIMER_REAL, 0)
+        signal.signal(signal.SIGALRM, old)
 
 
 class Outcome:
@@ -11,7 +37,7 @@ class Outcome:
 
 
 def run_ast(world, prog, cap=5000, text=None, ref_cap=20000):
-    """status in: ok | undefined | refcap | rejected | crash | abort | capped | mismatch"""
+    """status in: ok | undefined | refcap | rejected | crash | abort | capped | mismatch | does-not-finish"""
     text = text if text is not None else render.render(prog)
     r = refmod.Ref(world.population, cap=ref_cap)
     try:
@@ -21,7 +47,12 @@ def run_ast(world, prog, cap=5000, text=None, ref_cap=20000):
     except refmod.RefCap:
         return Outcome('refcap', None, text)
     world.reset()
-    res = world.run_script(text, cap)
+    try:
+        res = limited(world.run_script, text, cap)
+    except TooLong:
+        return Outcome('does-not-finish', 'no result within %d s' % TIME_LIMIT_S, text)
+    if res.raised and 'TooLong' in str(res.raised):
+        return Outcome('does-not-finish', 'no result within %d s' % TIME_LIMIT_S, text)
     if res.accepted is None:
         return Outcome('crash', res.raised, text)
     if not res.accepted:
